@@ -2,16 +2,33 @@
    identical on every call.  Statements, theorems, witnesses, examples, Print Assumptions only.
    Model: model/EsBuild.v; vocabulary: model/EsSpec.v; lemmas: proofs/EsProofs.v.
 
-   What is PROVED here is deliberately small (see the final report of the worker / MANIFEST):
-   * the history clause in the model (a call's result depends on (configuration, tree) only) and the
-     fact that the per-instance key lists only ever extend the class-level tuples;
-   * the `_name` clause is REFUTED on the unchanged code (F16): a named element of the same class as
-     the operation (or `+`) it is an operand of is spliced into its parent and its name is lost.
-   The leaf-clause table itself (field, value, kind, options) is checked on the implementation by
-   the independent Python oracle of harness/c06.py on every run, and the model that these
-   statements are about is tied to the code by the call-sequence correspondence. *)
-Require Import Base Decimal Tree GenTree GenVisitors Visitor Json EsSpecs EsCheck EsBuild EsSpec
+   Clauses of the property text:
+   (a) "each word, phrase or range appears exactly once as a leaf clause addressed to the fully
+       qualified field, carrying the term's own text ... kind follows the documented table ...
+       fuzziness / slop / boost ... per-field options merged in, its _name is the name of the nearest
+       named enclosing element"                                       -> C06_leaves (multiset of the
+       leaf clauses of the JSON = clauses of EsSpec.expected_leaves, which is computed directly on the
+       tree), and C06_eleaves (the same in document order on the E-tree).
+       REFUTED in full by F16 (the name of an element that has the class of the operation or `+` it is
+       an operand of is lost); proved under the guard no_named_flattened.
+   (b) "the result is plain JSON data"                                -> C06_plain_json (full)
+   (c) "identical on every call of the same or of a fresh builder"   -> C06_calls_independent in the
+       pure model; what ties it to the code: the generated facts C06_tie_* (class-level defaults are
+       tuples / str, the builder uses the standard E-classes) and the call-sequence correspondence.
+   The rendering of ONE expected leaf record to its clause is EsBuild.leaf_json (kind = leaf_method,
+   field, value under query / value, generated keys over the field options); that table is also
+   checked on the implementation by the independent Python oracle of harness/c06.py. *)
+Require Import Base Decimal Tree GenTree GenVisitors GenEs Visitor Json EsSpecs EsCheck EsBuild EsSpec
                TreeInd EsProofs.
+From Coq Require Import Permutation.
+
+(* ---- tie obligations on generated data *)
+Lemma C06_tie_e_consts_immutable : gen_e_consts_immutable = true.
+Proof. vm_compute. reflexivity. Qed.
+Lemma C06_tie_builder_eclasses_standard : gen_builder_eclasses_standard = true.
+Proof. vm_compute. reflexivity. Qed.
+Lemma C06_tie_methods_known : builder_methods_known = true /\ chk_methods_known = true.
+Proof. vm_compute. split; reflexivity. Qed.
 
 (* ---- history clause: "identical on every call of the same or of a fresh builder" *)
 (* call number k of a builder instance returns what a fresh builder returns for that tree *)
@@ -23,8 +40,8 @@ Theorem C06_calls_independent : C06_calls_independent_statement.
 Proof. intros cfg ts k t H. unfold build_calls. apply map_nth_error. exact H. Qed.
 
 (* what makes the pure model adequate: the per-instance ADDITIONAL_KEYS_TO_ADD is always the class-level
-   tuple followed by what the instance appended (E-CONST values hard-coded in EsBuild.v), for every
-   way the builder creates or updates a leaf item *)
+   tuple (generated: gen/GenEs.v) followed by what the instance appended, for every way the builder
+   creates or updates a leaf item *)
 Definition keys_extend_class (l : leaf) : Prop :=
   exists extra, l_addkeys l = class_addkeys (l_kind l) ++ extra.
 
@@ -102,6 +119,74 @@ Example C06_names_nonvacuous :
             no_named_flattened t_tab = true.
 Proof. eexists. split; [vm_compute; reflexivity|]. vm_compute. repeat split. Qed.
 
+(* ---- clause (a): the leaf clauses *)
+(* full strength: for every supported tree and well-formed configuration (options_not_reserved: no
+   match_type / type option renames a clause kind to "bool" or "nested", which would make a leaf clause
+   indistinguishable from a compound one) *)
+Definition C06_leaves_statement : Prop :=
+  forall cfg t j, supported t = true -> wf_config cfg = true -> options_not_reserved cfg = true ->
+    build cfg t = ROk j -> Permutation (leaves j) (expected_clauses cfg t).
+
+Theorem C06_leaves_refuted : ~ C06_leaves_statement.
+Proof.
+  intros H.
+  assert (Hb : exists j, build default_config t_F16 = ROk j /\ exists c, leaves j = [c] /\
+                 exists c', expected_clauses default_config t_F16 = [c'] /\ json_eqb c c' = false).
+  { eexists. split; [vm_compute; reflexivity|]. eexists. split; [vm_compute; reflexivity|].
+    eexists. split; vm_compute; reflexivity. }
+  destruct Hb as [j [Hb [c [Hl [c' [He Hne]]]]]].
+  specialize (H default_config t_F16 j eq_refl eq_refl eq_refl Hb). rewrite Hl, He in H.
+  apply Permutation_length_1 in H. subst c'.
+  assert (Hr : forall x, json_eqb x x = true).
+  { clear. fix IH 1. intros [| b | d | s0 | l | o]; simpl.
+    - reflexivity.
+    - destruct b; reflexivity.
+    - unfold dec_struct_eqb. rewrite Bool.eqb_reflx, N.eqb_refl, Z.eqb_refl. reflexivity.
+    - apply str_eqb_refl.
+    - induction l as [|x l IHl]; [reflexivity|]. rewrite IH, IHl. reflexivity.
+    - induction o as [|[k v] o IHo]; [reflexivity|]. rewrite str_eqb_refl, IH, IHo. reflexivity. }
+  rewrite Hr in Hne. discriminate.
+Qed.
+
+(* the guard removes exactly F16 *)
+Definition C06_leaves_partial_statement : Prop :=
+  forall cfg t j, supported t = true -> wf_config cfg = true -> options_not_reserved cfg = true ->
+    no_named_flattened t = true ->
+    build cfg t = ROk j -> Permutation (leaves j) (expected_clauses cfg t).
+
+Theorem C06_leaves_partial : C06_leaves_partial_statement.
+Proof.
+  intros cfg t j Hs _ Hk Hn Hb.
+  exact (build_leaves cfg t j Hs Hn (options_kinds_not_reserved cfg t Hk) Hb).
+Qed.
+
+(* in document order, on the E-tree the JSON is rendered from (the json of a BoolOperation lists its
+   must clauses first, so only the multiset survives in the JSON) *)
+Definition C06_eleaves_partial_statement : Prop :=
+  forall cfg t e, supported t = true -> no_named_flattened t = true ->
+    build_etree cfg t = ROk e -> eleaves e = expected_leaves cfg t.
+
+Theorem C06_eleaves_partial : C06_eleaves_partial_statement.
+Proof. intros cfg t e Hs Hn Hb. exact (build_etree_leaves cfg t e Hs Hn Hb). Qed.
+
+(* ---- clause (b): plain JSON data (every dict has pairwise distinct str keys, values are JSON) —
+   for every tree, supported or not *)
+Definition C06_plain_json_statement : Prop :=
+  forall cfg t j, wf_config cfg = true -> build cfg t = ROk j -> json_wf j = true.
+
+Theorem C06_plain_json : C06_plain_json_statement.
+Proof. intros cfg t j Hwf Hb. exact (build_wf cfg t j Hwf Hb). Qed.
+
+(* ---- non-vacuity of the guards *)
+Example C06_leaves_nonvacuous :
+  supported t_tab = true /\ wf_config cfg_tab = true /\ options_not_reserved cfg_tab = true /\
+  no_named_flattened t_tab = true /\ exists j, build cfg_tab t_tab = ROk j /\ length (leaves j) = 2.
+Proof. repeat split; try (vm_compute; reflexivity). eexists. split; vm_compute; reflexivity. Qed.
+
 Print Assumptions C06_calls_independent.
 Print Assumptions C06_class_defaults_untouched.
 Print Assumptions C06_leaf_names_refuted.
+Print Assumptions C06_leaves_refuted.
+Print Assumptions C06_leaves_partial.
+Print Assumptions C06_eleaves_partial.
+Print Assumptions C06_plain_json.
